@@ -246,7 +246,11 @@ def evaluate(ctx, case):
             na += len(names)
         block_atoms.append((a0, na))
         block_res.append((r0, len(residues)))
-    G.write_gro(path, "C11 generated system", residues, case["coordseed"], case["vel"])
+    # the atom-NUMBER column does not have to count 1, 2, 3 … (files pasted together, more than 99999 atoms): nothing may
+    # be derived from it (seed C11-14: the first atom of a run taken from `atomid - 1`)
+    aid0 = [1, 1, 1, 7, 99990, 50001][case["coordseed"] % 6]
+    ctx.count("atom-numbers-start-at:%d" % aid0)
+    G.write_gro(path, "C11 generated system", residues, case["coordseed"], case["vel"], atomid_start=aid0)
     raw = G.parse_gro_raw(path)
     atoms = raw["atoms"]
     sig = [(r[1], len(r[2])) for r in residues]
